@@ -414,6 +414,47 @@ def combined(res, rlen, szx2, where, nblocks1):
         sw.dispose()
 
 
+def szx7(res, rlen):
+    """Block2 requests that name SZX 7 over a transport without BERT (UDP): treated as a wish for the largest block there is
+    (1024 bytes) - slices of the single rendering, 4.00 beyond its end, never an internal error."""
+    from ..seam2 import SiteWorld
+    R = bytes((i * 11 + 5) & 0xFF for i in range(rlen))
+    renders = []
+
+    class Big(resource.Resource):
+        async def render_get(self, request):
+            renders.append(1)
+            return Message(payload=R)
+    sw = SiteWorld(lambda sw: _site_with(Big()))
+    case = {"family": "szx7", "rlen": rlen}
+    res.evaluations += 1
+    try:
+        nblocks = max(1, -(-rlen // 1024))
+        for start_szx in (7, 6):
+            for num in list(range(nblocks)) + [nblocks + 1]:
+                m = Message(code=GET, uri_path=["big"])
+                m.opt.block2 = (num, False, 7 if (num > 0 or start_szx == 7) else 6)
+                r = sw.do(m, 1)
+                code = r.code.dotted
+                want = R[num * 1024:(num + 1) * 1024]
+                if num < nblocks:
+                    b2 = r.opt.block2
+                    ok = code == "2.05" and bytes(r.payload) == want and (
+                        (b2 is None and nblocks == 1) or (b2 is not None and (b2.block_number, bool(b2.more)) == (num, num < nblocks - 1) and b2.size_exponent in (6, 7)))
+                else:
+                    ok = code in ("4.00", "4.08")
+                if not ok:
+                    res.violate(Violation("block2-later" if num else "block2-first", "slice [%d:%d] (or 4.00 beyond the end)" % (num * 1024, num * 1024 + len(want)),
+                                          {"code": code, "len": len(r.payload)}, "blockwise.py:Block2Cache.extract_or_insert", dict(case, num=num, start=start_szx),
+                                          key="szx7-" + ("5xx" if code.startswith("5.") else "other")))
+                    return
+        res.traces += 1
+        res.signatures.add(core.digest(("szx7", rlen)))
+        res.outcomes.add(core.digest(("szx7", nblocks)))
+    finally:
+        sw.dispose()
+
+
 def _site_with(r):
     site = resource.Site()
     site.add_resource(["big"], r)
@@ -428,6 +469,8 @@ def job(arg):
                 for where in ("last", "every"):
                     for nb in (1, 2, 3):
                         combined(res, rlen, szx2, where, nb)
+        for rlen in (100, 1024, 1025, 2048, 3000):
+            szx7(res, rlen)
         res.sample({"combined": "POST in 1-3 Block1 blocks, Block2 wish on the last / every block, response of 0..100 bytes"})
         return res
     family, first, rlen, depth = arg
@@ -508,6 +551,10 @@ def run(tier, seed, jobs):
 
 
 def replay(case, scenario, seed):
+    if case.get("family") == "szx7":
+        res = Result()
+        szx7(res, case["rlen"])
+        return [v for v, n in res.violations.values()]
     if case.get("family") == "combined":
         res = Result()
         combined(res, case["rlen"], case["szx2"], case["where"], case["blocks1"])
